@@ -790,6 +790,156 @@ Section Laws.
     rewrite (skip_ws_eof _ R2). cbn [bind].
     rewrite (rest_nil (tick (tick (mkL len t))) R2). eexists. reflexivity.
   Qed.
+
+  (** ** Stepping [tokenize_loop] token by token (used for the end-to-end witness in Lex/EndToEnd.v) *)
+
+  Lemma rest_mk_S L c r t : rest L = c :: r -> rest (mkL (S (position L)) t) = r.
+  Proof.
+    unfold rest. cbn [position]. intros H. destruct (skipn_cons_nth input _ _ _ H) as (_ & _ & C). exact C.
+  Qed.
+
+  (** one iteration of the main loop in front of a character that is neither whitespace nor '-' *)
+  Lemma tokenize_loop_emit f acc L c r t L2 :
+    rest L = c :: r -> is_ws c = false -> (c =? 45) = false ->
+    next_token ua uu input len (tick (tick L)) = Ok (t, L2) ->
+    tokenize_loop ua uu input len (S f) acc L = tokenize_loop ua uu input len f (t :: acc) L2.
+  Proof.
+    intros HR Hw Hm Hn. cbn [tokenize_loop].
+    rewrite (skip_ws_noop (tick L) c r HR Hw Hm). cbn [bind].
+    destruct (rest_cons (tick (tick L)) c r HR) as (He & _). rewrite He, Hn. reflexivity.
+  Qed.
+
+  Lemma tokenize_loop_finish f acc L :
+    rest L = [] ->
+    tokenize_loop ua uu input len (S f) acc L = Ok (rev (TEof :: acc), tick (tick L)).
+  Proof.
+    intros HR. cbn [tokenize_loop]. rewrite (skip_ws_eof (tick L) HR). cbn [bind].
+    rewrite (rest_nil (tick (tick L)) HR). reflexivity.
+  Qed.
+
+  Lemma next_token_paren L c r :
+    rest L = c :: r -> c = 40 \/ c = 41 ->
+    next_token ua uu input len L =
+    Ok (if c =? 40 then TLParen else TRParen, mkL (S (position L)) (S (ticks L))).
+  Proof.
+    intros HR Hc. destruct (rest_cons (tick L) c r HR) as (He & Hcur & Ha & _).
+    unfold next_token. rewrite Hcur, Ha.
+    destruct Hc as [-> | ->]; reflexivity.
+  Qed.
+
+  (** the one-digit number [1] followed by [)] or by the end of the input *)
+  Lemma next_token_one L r :
+    rest L = 49 :: r -> (r = [] \/ exists r', r = 41 :: r') ->
+    exists t, next_token ua uu input len L = Ok (TNumber [49], mkL (S (position L)) t).
+  Proof.
+    intros HR Hr. destruct (rest_cons (tick L) 49 r HR) as (He & Hcur & Ha & HR1).
+    pose proof (rest_len L) as Hlen. rewrite HR in Hlen. cbn [length] in Hlen.
+    unfold next_token. rewrite Hcur. cbn [Z.eqb Pos.eqb orb is_ascii_digit in_range Z.leb Z.compare Pos.compare Pos.compare_cont andb is_ascii_alpha].
+    unfold tokenize_number. rewrite He, Hcur. cbn [negb andb Z.eqb Pos.eqb].
+    assert (Hf : fuel0 len = S (S (len - 1))) by (unfold fuel0; lia).
+    rewrite Hf. cbn [number_body]. rewrite He, Hcur.
+    cbn [is_ascii_digit in_range Z.leb Z.compare Pos.compare Pos.compare_cont andb].
+    assert (Ha' : adv (tick (tick L)) = mkL (S (position L)) (S (S (ticks L)))).
+    { rewrite adv_noteof by exact He. reflexivity. }
+    rewrite Ha'. set (L1 := {| position := S (position L); ticks := S (S (ticks L)) |}).
+    assert (HR1' : rest L1 = r) by (apply (rest_mk_S (tick L) 49 r _ HR)).
+    assert (Hsl : slice input (position L) (S (position L)) = Ok [49]).
+    { unfold slice.
+      assert (E1 : Nat.leb (position L) (S (position L)) = true) by (apply Nat.leb_le; lia).
+      assert (E2 : Nat.leb (S (position L)) (length input) = true) by (apply Nat.leb_le; subst len; lia).
+      rewrite E1, E2. cbn [andb]. replace (S (position L) - position L)%nat with 1%nat by lia.
+      unfold rest in HR. cbn [tick position] in HR. rewrite HR. reflexivity. }
+    destruct Hr as [-> | (r' & ->)].
+    - pose proof (rest_nil L1 HR1') as He1. rewrite He1. cbn [bind].
+      unfold number_exponent. rewrite He1. cbn [bind position tick]. subst L1. cbn [position].
+      rewrite Hsl. cbn [bind]. eexists. reflexivity.
+    - destruct (rest_cons L1 41 r' HR1') as (He1 & Hc1 & _). rewrite He1, Hc1.
+      cbn [is_ascii_digit in_range Z.leb Z.compare Pos.compare Pos.compare_cont andb Z.eqb Pos.eqb negb bind].
+      unfold number_exponent. rewrite He1, Hc1. cbn [Z.eqb Pos.eqb orb bind position tick]. subst L1. cbn [position].
+      rewrite Hsl. cbn [bind]. eexists. reflexivity.
+  Qed.
+
+  Lemma ident_loop_step f L c r :
+    rest L = c :: r -> (char_is_alphanumeric ua c || (c =? 95)) = true ->
+    ident_loop ua input len (S f) L = ident_loop ua input len f (mkL (S (position L)) (S (ticks L))).
+  Proof.
+    intros HR Hc. destruct (rest_cons L c r HR) as (He & Hcur & _ & _).
+    cbn [ident_loop]. rewrite He, Hcur, Hc. rewrite adv_noteof by exact He. reflexivity.
+  Qed.
+
+  Lemma ident_loop_stop f L c r :
+    rest L = c :: r -> (char_is_alphanumeric ua c || (c =? 95)) = false ->
+    ident_loop ua input len (S f) L = Ok L.
+  Proof.
+    intros HR Hc. destruct (rest_cons L c r HR) as (He & Hcur & _ & _).
+    cbn [ident_loop]. rewrite He, Hcur, Hc. reflexivity.
+  Qed.
+
+  (** the keyword SELECT directly followed by an opening parenthesis *)
+  Lemma next_token_select L r :
+    rest L = 83 :: 69 :: 76 :: 69 :: 67 :: 84 :: 40 :: r ->
+    exists t, next_token ua uu input len L =
+              Ok (TKeyword [83; 101; 108; 101; 99; 116], mkL (position L + 6) t).
+  Proof.
+    intros HR. destruct (rest_cons (tick L) _ _ HR) as (He & Hcur & _ & _).
+    pose proof (rest_len L) as Hlen. rewrite HR in Hlen. cbn [length] in Hlen.
+    unfold next_token. rewrite Hcur.
+    cbn [Z.eqb Pos.eqb orb is_ascii_digit is_ascii_alpha in_range Z.leb Z.compare Pos.compare Pos.compare_cont andb].
+    unfold tokenize_identifier_or_keyword.
+    assert (Hf : fuel0 len = S (S (S (S (S (S (S (len - 6)))))))) by (unfold fuel0; lia).
+    rewrite Hf.
+    set (p := position L). set (t0 := ticks L).
+    assert (R0 : rest (mkL p (S t0)) = 83 :: 69 :: 76 :: 69 :: 67 :: 84 :: 40 :: r) by exact HR.
+    rewrite (ident_loop_step _ _ _ _ R0 eq_refl). cbn [position ticks].
+    pose proof (rest_mk_S _ _ _ (S (S t0)) R0) as R1. cbn [position] in R1.
+    rewrite (ident_loop_step _ _ _ _ R1 eq_refl). cbn [position ticks].
+    pose proof (rest_mk_S _ _ _ (S (S (S t0))) R1) as R2. cbn [position] in R2.
+    rewrite (ident_loop_step _ _ _ _ R2 eq_refl). cbn [position ticks].
+    pose proof (rest_mk_S _ _ _ (S (S (S (S t0)))) R2) as R3. cbn [position] in R3.
+    rewrite (ident_loop_step _ _ _ _ R3 eq_refl). cbn [position ticks].
+    pose proof (rest_mk_S _ _ _ (S (S (S (S (S t0))))) R3) as R4. cbn [position] in R4.
+    rewrite (ident_loop_step _ _ _ _ R4 eq_refl). cbn [position ticks].
+    pose proof (rest_mk_S _ _ _ (S (S (S (S (S (S t0)))))) R4) as R5. cbn [position] in R5.
+    rewrite (ident_loop_step _ _ _ _ R5 eq_refl). cbn [position ticks].
+    pose proof (rest_mk_S _ _ _ (S (S (S (S (S (S (S t0))))))) R5) as R6. cbn [position] in R6.
+    rewrite (ident_loop_stop _ _ _ _ R6 eq_refl). cbn [bind position tick].
+    assert (Hsl : slice input p (S (S (S (S (S (S p)))))) = Ok [83; 69; 76; 69; 67; 84]).
+    { unfold slice.
+      assert (E1 : Nat.leb p (S (S (S (S (S (S p)))))) = true) by (apply Nat.leb_le; lia).
+      assert (E2 : Nat.leb (S (S (S (S (S (S p)))))) (length input) = true)
+        by (apply Nat.leb_le; subst len p; lia).
+      rewrite E1, E2. cbn [andb]. replace (S (S (S (S (S (S p))))) - p)%nat with 6%nat by lia.
+      unfold rest in R0. cbn [position] in R0. rewrite R0. reflexivity. }
+    fold p. rewrite Hsl. cbn [bind].
+    exists (S (S (S (S (S (S (S t0))))))).
+    replace (p + 6)%nat with (S (S (S (S (S (S p)))))) by lia.
+    reflexivity.
+  Qed.
+
+  Lemma repeat_app_cons {A} (x : A) k l : repeat x k ++ x :: l = x :: repeat x k ++ l.
+  Proof. induction k as [|k IH]; cbn; [reflexivity | rewrite IH; reflexivity]. Qed.
+
+  (** a run of [k] parentheses: [k] iterations of the main loop, [k] tokens *)
+  Lemma tokenize_loop_parens c : c = 40 \/ c = 41 ->
+    forall k f acc L r, rest L = repeat c k ++ r ->
+    exists L', rest L' = r /\
+      tokenize_loop ua uu input len (k + f) acc L =
+      tokenize_loop ua uu input len f (repeat (if c =? 40 then TLParen else TRParen) k ++ acc) L'.
+  Proof.
+    intros Hc. induction k as [|k IH]; intros f acc L r HR.
+    - exists L. split; [exact HR | reflexivity].
+    - cbn [repeat app] in HR.
+      assert (Hw : is_ws c = false) by (destruct Hc as [-> | ->]; reflexivity).
+      assert (Hm : (c =? 45) = false) by (destruct Hc as [-> | ->]; reflexivity).
+      pose proof (next_token_paren (tick (tick L)) c _ HR Hc) as Hn.
+      cbn [Nat.add].
+      rewrite (tokenize_loop_emit _ acc L c _ _ _ HR Hw Hm Hn).
+      pose proof (rest_mk_S (tick (tick L)) c _ (S (ticks (tick (tick L)))) HR) as HR2.
+      destruct (IH f ((if c =? 40 then TLParen else TRParen) :: acc) _ r HR2) as (L' & HR' & E).
+      exists L'. split; [exact HR'|]. rewrite E. cbn [repeat app].
+      rewrite repeat_app_cons. reflexivity.
+  Qed.
+
 End Laws.
 
 (** ** The theorems about [tokenize] *)
@@ -926,3 +1076,59 @@ Proof. vm_compute. reflexivity. Qed.
 Example lex_token_count_nontrivial :
   exists ts, tokenize_ascii [40;40;49;41;41] = Ok ts /\ length ts = 6%nat.
 Proof. eexists. vm_compute. split; reflexivity. Qed.
+
+(** ** A whole statement text: [SELECT((..(1)..))] with [k >= 1] parentheses *)
+Definition paren_text (k : nat) : list Z :=
+  [83; 69; 76; 69; 67; 84] ++ repeat 40 k ++ 49 :: repeat 41 k.
+
+Lemma rev_repeat {A} (x : A) k : rev (repeat x k) = repeat x k.
+Proof.
+  induction k as [|k IH]; [reflexivity|]. cbn [repeat rev]. rewrite IH.
+  symmetry. apply repeat_cons.
+Qed.
+
+Theorem lex_paren_text ua uu k :
+  tokenize ua uu (paren_text (S k)) =
+  Ok (TKeyword [83; 101; 108; 101; 99; 116] :: repeat TLParen (S k) ++ TNumber [49] :: repeat TRParen (S k) ++ [TEof]).
+Proof.
+  set (cs := paren_text (S k)).
+  assert (Hlen : length cs = (2 * k + 9)%nat).
+  { subst cs. unfold paren_text. rewrite !app_length. cbn [length]. rewrite !repeat_length. lia. }
+  unfold tokenize, tokenize_full, tokenize_run.
+  assert (Hf : fuel0 (length cs) = S (S k + S (S k + S 5))) by (unfold fuel0; rewrite Hlen; lia).
+  rewrite Hf.
+  (* SELECT *)
+  assert (R0 : rest cs (mkL 0 0) = 83 :: 69 :: 76 :: 69 :: 67 :: 84 :: 40 :: (repeat 40 k ++ 49 :: repeat 41 (S k)))
+    by reflexivity.
+  destruct (next_token_select ua uu cs (tick (tick (mkL 0 0))) _ R0) as (t1 & E1).
+  rewrite (tokenize_loop_emit ua uu cs _ [] (mkL 0 0) 83 _ _ _ R0 eq_refl eq_refl E1).
+  change (position (tick (tick {| position := 0; ticks := 0 |})) + 6)%nat with 6%nat.
+  (* opening parentheses *)
+  assert (R1 : rest cs (mkL 6 t1) = repeat 40 (S k) ++ 49 :: repeat 41 (S k)) by reflexivity.
+  destruct (tokenize_loop_parens ua uu cs 40 (or_introl eq_refl) (S k) (S (S k + S 5))
+              [TKeyword [83; 101; 108; 101; 99; 116]] _ _ R1)
+    as (L2 & R2 & E2).
+  rewrite E2. cbn [Z.eqb Pos.eqb].
+  (* the literal *)
+  destruct (next_token_one ua uu cs (tick (tick L2)) _ R2) as (t3 & E3).
+  { right. exists (repeat 41 k). reflexivity. }
+  rewrite (tokenize_loop_emit ua uu cs _ _ L2 49 _ _ _ R2 eq_refl eq_refl E3).
+  pose proof (rest_mk_S cs (tick (tick L2)) 49 _ t3 R2) as R3.
+  (* closing parentheses *)
+  assert (R3' : rest cs {| position := S (position (tick (tick L2))); ticks := t3 |} = repeat 41 (S k) ++ [])
+    by (rewrite app_nil_r; exact R3).
+  destruct (tokenize_loop_parens ua uu cs 41 (or_intror eq_refl) (S k) (S 5)
+              (TNumber [49] :: repeat TLParen (S k) ++ [TKeyword [83; 101; 108; 101; 99; 116]]) _ [] R3')
+    as (L4 & R4 & E4).
+  rewrite E4. cbn [Z.eqb Pos.eqb].
+  rewrite (tokenize_loop_finish ua uu cs _ _ L4 R4).
+  f_equal.
+  cbn [rev].
+  rewrite rev_app_distr. cbn [rev]. rewrite rev_app_distr. cbn [rev app].
+  rewrite !rev_repeat. rewrite <- !app_assoc. cbn [app]. reflexivity.
+Qed.
+
+Example lex_paren_text_nontrivial :
+  tokenize_ascii (paren_text 2) =
+  Ok [TKeyword [83; 101; 108; 101; 99; 116]; TLParen; TLParen; TNumber [49]; TRParen; TRParen; TEof].
+Proof. vm_compute. reflexivity. Qed.
